@@ -18,6 +18,8 @@ Bad(e) ==
          \cup { c \in {"ArgumentsUnchanged"}   : ~e.args_unchanged }
          \cup { c \in {"RepeatRepeatsResult"}  : ~e.repeat_same }
     [] e.ev = "Mutation" -> { c \in {"ArgumentsUnchanged"} : ~e.args_unchanged }
+                            \cup { c \in {"M:GlobalGeneratorUntouchedByDeterministicRoutine"} : "generator_untouched" \in DOMAIN e /\ ~e.generator_untouched }
+                            \cup { c \in {"M:ErrorStateAndWarningFiltersRestored"} : "errstate_restored" \in DOMAIN e /\ ~e.errstate_restored }
     [] e.ev = "Seeded"   -> { c \in {"ReproducibleUnderSeed"} : ~e.same } \cup { c \in {"SeedMatters"} : ~e.differs_other_seed }
     [] e.ev = "Returned" -> { c \in {"ResultBelongsToCaller"} : ~e.same }
     [] e.ev = "Stale"    -> { c \in {"AnswersForCurrentContents"} : ~e.same }
